@@ -21,7 +21,7 @@ META = {
               "c10:payload_transition:block->none": 20,
               "c10:payload_transition:block->zero": 20,
               "c10:payload_transition:zero->block": 20,
-              "op:sym.rename": 500, "moves": 1000},
+              "op:sym.rename": 250, "moves": 1000},
     "assumptions": ["names are drawn from {'', 'a', 'b', 'main'} so that "
                     "shared names are the norm"],
 }
